@@ -260,6 +260,8 @@ func scRenderMode(items []scItem, mode int) *scRender {
 			add(i, "local ", decl("n", it.N, it.ID, "local"), ", ", decl("m", it.M, it.Mid, "local"), " = ", use("u", it.U, it.B, it.Alt))
 		case "use":
 			add(i, "print(", use("u", it.U, it.B, it.Alt), ")")
+		case "guse":
+			add(i, "print(_G.", use("u", it.U, 0, nil), ")")
 		case "iassign":
 			add(i, use("t", it.T, it.Tb, it.Altt), "[", use("u", it.U, it.B, it.Alt), "] = 1")
 		case "muse":
